@@ -369,6 +369,37 @@ def status_table(out):
     out["Status"] = {"hap": rows, "toStatusCodeSrc": ast.unparse(f)}
 
 
+
+@extractor
+def srp_constants(out):
+    t = parse("crypto/srp.py")
+    d = {}
+    for n in t.body:
+        if isinstance(n, ast.Assign) and isinstance(n.targets[0], ast.Name) and n.targets[0].id in ("CLIENT_K_VALUE", "GENERATOR_VALUE", "MODULUS_VALUE", "HK_KEY_LENGTH"):
+            v = n.value
+            if isinstance(v, ast.Call) and getattr(v.func, "id", None) == "int":
+                d[n.targets[0].id] = int(bconst(v.args[0]).replace(b"\n", b""), v.args[1].value)
+            elif isinstance(v, ast.Constant):
+                d[n.targets[0].id] = v.value
+    if set(d) != {"CLIENT_K_VALUE", "GENERATOR_VALUE", "MODULUS_VALUE", "HK_KEY_LENGTH"}:
+        raise Shape("srp constants: " + ",".join(sorted(d)))
+    # salt length used by set_salt's pad_left, username literal of pair-setup
+    cls = [c for c in t.body if isinstance(c, ast.ClassDef) and c.name == "SrpClient"][0]
+    ss = func(cls, "set_salt")
+    pads = [c.args[1].value for c in ast.walk(ss) if isinstance(c, ast.Call) and getattr(c.func, "id", "") == "pad_left" and isinstance(c.args[1], ast.Constant)]
+    if len(pads) != 1:
+        raise Shape("set_salt pad_left length")
+    d["SALT_LENGTH"] = pads[0]
+    t2 = parse("protocol/__init__.py")
+    f = func(t2, "perform_pair_setup_part2")
+    users = [c.args[0].value for c in ast.walk(f) if isinstance(c, ast.Call) and getattr(c.func, "id", "") == "SrpClient" and isinstance(c.args[0], ast.Constant)]
+    if len(users) != 1:
+        raise Shape("SrpClient username literal")
+    d["USERNAME"] = users[0]
+    out["Srp"] = {k: (str(v) if isinstance(v, int) and v > 2 ** 64 else v) for k, v in d.items()}
+    out["_srp_raw"] = d
+
+
 # --------------------------------------------------------------------------- emission
 
 def emit(out):
@@ -487,6 +518,16 @@ def emit_status(out, files):
          "def hap : List (String × Int × String) := " + lean_list(out["Status"]["hap"], lambda r: f"({lean_str(r[0])}, ({r[1]} : Int), {lean_str(r[2])})"),
          "end HapVerif.Gen.Status"]
     files["Status.lean"] = "\n".join(L) + "\n"
+
+
+@emitter
+def emit_srp(out, files):
+    d = out.pop("_srp_raw")
+    L = ["/-! GENERATED by tools/translate.py from crypto/srp.py - do not edit. -/", "namespace HapVerif.Gen.Srp",
+         f"def N : Nat := {d['MODULUS_VALUE']}", f"def g : Nat := {d['GENERATOR_VALUE']}", f"def k : Nat := {d['CLIENT_K_VALUE']}",
+         f"def keyLen : Nat := {d['HK_KEY_LENGTH']}", f"def saltLen : Nat := {d['SALT_LENGTH']}", f"def username : String := {lean_str(d['USERNAME'])}",
+         "end HapVerif.Gen.Srp"]
+    files["Srp.lean"] = "\n".join(L) + "\n"
 
 
 def main():
